@@ -775,6 +775,7 @@ func symString(s []sym) string {
 
 func init() {
 	props["C05"] = func() {
+		decisive['P'] = "the accepted language differs from the documented grammar (model `valid`, proved to accept exactly the grammar: C05.parseTokens_iff, accepts_spaced_iff)"
 		res.Rule = "every sequence of length <= 4 (thorough <= 5) over the property's alphabet (18 symbols: 5 kinds of license id (active, deprecated, listed -or-later, -only form, unlisted -or-later form in lower case), exception id, unknown id, LicenseRef, DocumentRef, ':', '(', ')', AND, OR, WITH, '+', ' +', lower-case operator), each in loose and in tight spacing, + random sequences of length 5-12 biased towards grammatical ones; reference = a recogniser written from the grammar in the property text. Non-trivial & distinct = distinct grammatical texts"
 		alpha := c05Alphabet()
 		maxLen := scale(4, 5)
